@@ -1519,6 +1519,11 @@ def _build():
         pattern=dict(check="format_roundtrip", quote_in_default=True, emit_default_doc=True, field="parse", observed="raises SyntaxError"),
         what="[R-default-quote] as C01-double-quote-in-string-default-not-escaped: the prose default \"say \"hi\"\" makes the parser raise SyntaxError (class/pydantic/function with emit_default_doc)",
         site="cdd/shared/pure_utils.py:quote / cdd/shared/defaults_utils.py", example="{'alpha': {'typ': 'str', 'default': 'say \"hi\"'}} with emit_default_doc=True"))
+    out.append(dict(
+        id="C02-google-multiline-description-truncated", property="C02",
+        pattern=dict(check="format_roundtrip", style="google", multiline_doc=True, field="doc", observed="truncated"),
+        what="[R-google-continuation-unindented] as C01-google-multiline-description-continuation-unindented: in Google style only the first line of a multi-line description comes back",
+        site="cdd/shared/docstring_utils.py:emit_param_str (google branch)", example="{'alpha': {'typ': 'int', 'doc': 'the value\\nsecond line of it'}} through class/function with docstring_format='google'"))
     return out
 
 
